@@ -113,11 +113,17 @@ def build(ovdir, key, pkg, race=False):
     out = os.path.join(bdir, name)
     if os.path.exists(out):
         return out
-    cmd = ["go", "test", "-c", "-tags", "verif", "-vet=off", "-overlay", os.path.join(ovdir, "overlay.json"), "-o", out]
-    if race:
-        cmd.append("-race")
-    cmd.append(pkg)
-    r = subprocess.run(cmd, cwd=REPO, env=goenv(), stdout=subprocess.PIPE, stderr=subprocess.STDOUT, text=True)
+    def compile(tags):
+        cmd = ["go", "test", "-c", "-tags", tags, "-vet=off", "-overlay", os.path.join(ovdir, "overlay.json"), "-o", out]
+        if race:
+            cmd.append("-race")
+        cmd.append(pkg)
+        return subprocess.run(cmd, cwd=REPO, env=goenv(), stdout=subprocess.PIPE, stderr=subprocess.STDOUT, text=True)
+    r = compile("verif")
+    if (r.returncode != 0 or not os.path.exists(out)) and "pushPending" in r.stdout or "updateContainers" in r.stdout:
+        # the one internal signature the harness depends on changed: rebuild with the adapter that does not call it
+        log("harness adapted: internal push function changed shape, building with verif_nopush")
+        r = compile("verif,verif_nopush")
     if r.returncode != 0 or not os.path.exists(out):
         print(r.stdout, file=sys.stderr)
         log("HARNESS-BUILD-FAILED: %s" % pkg)
@@ -142,6 +148,11 @@ def run_workers(binary, run, nshards, env, tag, timeout_s, cwd):
                  VERIF_OUT=os.path.join(scratch, "res-%d.json" % i),
                  VERIF_SCRATCH=os.path.join(scratch, "w%d" % i),
                  VERIF_DIR=VERIF)
+        if binary.endswith(".race.test"):
+            # free-running race-detector pass: real goroutines on all cores, reports collected from the log files
+            e["VERIF_RACE_LOG"] = os.path.join(e["VERIF_SCRATCH"], "race")
+            e["GORACE"] = "log_path=%s halt_on_error=0" % e["VERIF_RACE_LOG"]
+            e.setdefault("GOMAXPROCS", "4")
         e.setdefault("GOMAXPROCS", "1")
         os.makedirs(e["VERIF_SCRATCH"], exist_ok=True)
         lf = open(os.path.join(scratch, "log-%d.txt" % i), "w")
@@ -236,7 +247,8 @@ def run_check(pid, tier, replay_file=None):
         results = run_workers(binary, st["run"], nshards, env, pid + "-" + st["run"], timeout_s, cwd)
         for i, r in enumerate(results):
             res = r["res"]
-            if res is None or not res.get("done") or r["rc"] != 0:
+            raced = bool(st.get("race")) and res is not None and res.get("done") and res.get("violations")
+            if res is None or not res.get("done") or (r["rc"] != 0 and not raced):
                 # the worker died: report its in-flight state
                 tail = r["log"][-3000:]
                 if res is not None:
